@@ -30,6 +30,8 @@ public:
 
     void resize(const std::size_t components, const std::size_t dim_linear, const std::size_t dim_circular = 0) override;
 
+    bool augmentWithNoise(const Eigen::Ref<const Eigen::MatrixXd>& noise_covariance_matrix) override;
+
     ParticleSet& operator+=(const ParticleSet& rhs);
 
     Eigen::Ref<Eigen::MatrixXd> state();
